@@ -1,7 +1,7 @@
 (* C31: sequence-number order of the built samples.
 
    The ghost event log (evlog) records every change of active.head:
-     EvAnchor a h   active = filled: the head jumps from a to h = filled.head
+     EvAnchor a h _ active = filled: the head jumps from a to h = filled.head
      EvMove k h t   a run [h, t) was consumed (k = 0: a sample was built from it)
      EvSkip h       active.head++ in purgeBuffers
    log_ok says: after the first built sample, the forward distance (mod 2^16)
@@ -20,8 +20,8 @@ Open Scope N_scope.
 Ltac Zify.zify_post_hook ::= Z.div_mod_to_equations.
 
 (* ---------- the log ---------- *)
-Definition ev_src (e : ev) : N := match e with EvAnchor a _ => a | EvMove _ h _ => h | EvSkip h => h end.
-Definition ev_end (e : ev) : N := match e with EvAnchor _ h => h | EvMove _ _ t => t | EvSkip h => inc16 h end.
+Definition ev_src (e : ev) : N := match e with EvAnchor a _ _ => a | EvMove _ h _ => h | EvSkip h => h end.
+Definition ev_end (e : ev) : N := match e with EvAnchor _ h _ => h | EvMove _ _ t => t | EvSkip h => inc16 h end.
 Definition ev_len (e : ev) : N := sub16 (ev_end e) (ev_src e).
 Definition is_sample_ev (e : ev) : bool := match e with EvMove 0 _ _ => true | _ => false end.
 
@@ -155,7 +155,7 @@ Section Order.
   Lemma oinv_anchor : forall s, locs_ok s -> oinv s -> oinv (anchor s).
   Proof.
     intros s [[Hfh _] [Hah _]] H. unfold anchor. destruct (l_empty (active s)); [|exact H].
-    eapply (oinv_move s _ (EvAnchor (l_head (active s)) (l_head (filled s)))); try reflexivity; try assumption.
+    eapply (oinv_move s _ (EvAnchor (l_head (active s)) (l_head (filled s)) (lagging s))); try reflexivity; try assumption.
   Qed.
 
   Lemma same3_extend : forall s, same3 s (extend s).
